@@ -2,7 +2,7 @@
    [tiny] is the SDK's coefficient-dropping test; exactness is stated for tests that drop only
    exact zeros (see C02 for the residual form of the underlying merge). *)
 Require Import Ommx.Num Ommx.Poly Ommx.Msg Ommx.Eval Ommx.Arith Ommx.PEval Ommx.PEvalProofs
-        Ommx.Inst Ommx.PEvalInst Ommx.PEvalInstProofs Ommx.Subst Ommx.SubstProofs Ommx.PEvalInstState.
+        Ommx.Inst Ommx.PEvalInst Ommx.PEvalInstProofs Ommx.Subst Ommx.SubstProofs Ommx.PEvalInstState Ommx.ResidualOps Ommx.PEvalIds.
 
 (* the partially evaluated function denotes the original at every valuation that agrees with
    the fixed part: parts that do not involve fixed variables keep their meaning *)
@@ -10,6 +10,22 @@ Theorem C03_fn : forall tiny, tiny_exact tiny -> forall rho s, agrees rho s ->
   forall f f' u, fn_pe tiny f s = Some (f', u) -> denote f' rho = denote f rho.
 Proof. exact fn_pe_sound. Qed.
 Print Assumptions C03_fn.
+
+(* with the SDK's own dropping test (and any other): what the partially evaluated function lacks
+   is an explicit residual of at most |f| terms whose coefficients all passed the test; on the unit
+   box the difference is at most |f| * eps *)
+Theorem C03_fn_residual : forall (tiny : num -> bool) (f f' : function) (s : state) (u : list N),
+  fn_pe tiny f s = Some (f', u) ->
+  let d := fn_pe_resid tiny f s in
+  all_pass tiny d /\ (List.length d <= nterms f)%nat /\
+  forall rho, agrees rho s -> denote f' rho + val rho d = denote f rho.
+Proof. exact fn_pe_residual. Qed.
+Print Assumptions C03_fn_residual.
+Theorem C03_fn_eps_bound : forall (f f' : function) (s : state) (u : list N) rho,
+  fn_pe tiny_eps f s = Some (f', u) -> agrees rho s -> unit_box rho ->
+  qabs (denote f' rho - denote f rho) <= qn (nterms f) * eps.
+Proof. exact fn_pe_eps_bound_unit. Qed.
+Print Assumptions C03_fn_eps_bound.
 
 (* fixing s1 and then evaluating the remainder at s2 = evaluating the original at s1 u s2 *)
 Theorem C03_then_eval : forall tiny, tiny_exact tiny -> forall f s1 s2 f' u v ids w ids',
@@ -27,12 +43,22 @@ Theorem C03_two_steps : forall tiny, tiny_exact tiny -> forall f s1 s2 f1 u1 f2 
 Proof. exact pe_two_steps. Qed.
 Print Assumptions C03_two_steps.
 
-(* linear case of "no fixed variable remains; returned ids are fixed variables that occurred" *)
-Theorem C03_lin_ids_partial : forall s l l' u, lin_pe l s = (l', u) ->
-  (forall i, In i (map fst (l_terms l')) -> In i (map fst (l_terms l)) /\ ~ fixed s i) /\
-  (forall i, In i u -> In i (map fst (l_terms l)) /\ fixed s i).
-Proof. exact (lin_pe_ids tiny_eps). Qed.
-Print Assumptions C03_lin_ids_partial.
+(* "no fixed variable remains; the returned ids are fixed variables that occurred", for every
+   variant and an arbitrary dropping test: ids of the result occur in the original and are not
+   fixed; returned ids occur and are fixed; the returned set is EXACTLY the fixed ids that occur in
+   a term that is read (all terms for Linear / Quadratic; for Polynomial the Rust code skips a term
+   whose coefficient is tiny before looking at its ids: [occurs_live]) *)
+Theorem C03_fn_ids : forall tiny s f f' u, fn_pe tiny f s = Some (f', u) ->
+  (forall i, occurs f' i -> occurs f i /\ ~ PEval.fixed s i) /\
+  (forall i, In i u -> occurs f i /\ PEval.fixed s i) /\
+  (forall i, In i u <-> occurs_live tiny f i /\ PEval.fixed s i) /\
+  (forall i, occurs f' i -> occurs_live tiny f i).
+Proof. exact fn_pe_ids. Qed.
+Print Assumptions C03_fn_ids.
+Theorem C03_fn_no_fixed : forall tiny s f f' u i,
+  fn_pe tiny f s = Some (f', u) -> PEval.fixed s i -> ~ occurs f' i.
+Proof. exact fn_pe_no_fixed. Qed.
+Print Assumptions C03_fn_no_fixed.
 
 
 (* instance level: fixing s1 in an instance (objective, active and removed constraints, dependency
